@@ -17,6 +17,12 @@
 // real order is the hash-map iteration order of the table).
 //
 // Case syntax: lean/Rbgp/Export/Codec01.lean.
+// The observing neighbours' sessions are driven by the REAL `run_select`: every `ToPeerEvent` the RIB
+// fans out is taken from the channel `register_peer` created (so that `deliver k` can hand over
+// exactly k of them, bulk operations in prefix order) and re-sent on a channel the session polls;
+// one call of `run_select` then runs the real `NlriChange` / `SoftResetOut` arm.  A `flush` calls
+// `run_select` while some `PendingTx` is not empty: its socket arm runs the real `flush_tx` on a
+// loopback TCP connection, and the bytes are read back on the other end.
 #![allow(dead_code)]
 
 use super::super::*;
@@ -372,6 +378,22 @@ fn flush(s: &mut PeerSession) -> Vec<u8> {
     txbuf.to_vec()
 }
 
+thread_local! {
+    /// loopback connections are kept from one case to the next (hundreds of thousands of cases would
+    /// otherwise leave as many sockets in TIME_WAIT)
+    static CONNS: std::cell::RefCell<Vec<(TcpStream, TcpStream)>> = const { std::cell::RefCell::new(Vec::new()) };
+}
+
+async fn conn_pair() -> (TcpStream, TcpStream) {
+    if let Some(p) = CONNS.with(|c| c.borrow_mut().pop()) {
+        return p;
+    }
+    let listener = tokio::net::TcpListener::bind("127.0.0.1:0").await.unwrap();
+    let laddr = listener.local_addr().unwrap();
+    let (client, server) = tokio::join!(TcpStream::connect(laddr), listener.accept());
+    (server.unwrap().0, client.unwrap())
+}
+
 enum Ev {
     Change(Arc<table::NlriChange>),
     SoftReset,
@@ -386,8 +408,8 @@ fn nlri_key(n: &packet::Nlri) -> (u128, u8) {
 }
 
 /// Move what the RIB operation just put on the tokio channel into the harness FIFO.
-fn pump(s: &mut PeerSession, q: &mut VecDeque<Ev>, sort: bool) {
-    let Some(rx) = s.peer_event_rx.as_mut() else {
+fn pump(rx: &mut Option<UnboundedReceiverStream<ToPeerEvent>>, q: &mut VecDeque<Ev>, sort: bool) {
+    let Some(rx) = rx.as_mut() else {
         return;
     };
     let mut batch: Vec<Ev> = Vec::new();
@@ -492,12 +514,26 @@ async fn run(c: &Case) -> String {
     // the two holders of an export policy: the neighbour's own assignment (PeerState) and the global
     // one (TableManager); the session code looks them up itself
     tables.export_policy.store(c.gpolicy0.clone());
+    let global: GlobalHandle = {
+        let (tx, _rx) = mpsc::unbounded_channel();
+        let (bfd_tx, _bfd_rx) = mpsc::unbounded_channel();
+        Arc::new(tokio::sync::RwLock::new(Global::new(tx, bfd_tx)))
+    };
 
     /// one observing neighbour
     struct Obsv {
         cfg: NbrCfg,
         remote_sa: SocketAddr,
         a: PeerSession,
+        // what run_select needs besides the session
+        stream: TcpStream,
+        client: TcpStream,
+        rxbuf: bytes::BytesMut,
+        close_rx: CloseRxFuture,
+        _close_tx: tokio::sync::oneshot::Sender<CloseReason>,
+        // the channel register_peer created (read by the harness) and the one the session polls
+        real_rx: Option<UnboundedReceiverStream<ToPeerEvent>>,
+        inj_tx: mpsc::UnboundedSender<ToPeerEvent>,
         addpath: bool,
         mirror: Mirror,
         q: VecDeque<Ev>,
@@ -515,10 +551,23 @@ async fn run(c: &Case) -> String {
         let mut a = new_session(c, n, &tables);
         a.state.export_policy.store(n.policy0.clone());
         a.on_established(local_sa, remote_sa).await;
+        let (stream, client) = conn_pair().await;
+        let (close_tx, close_rx) = tokio::sync::oneshot::channel::<CloseReason>();
+        let close_rx: CloseRxFuture = Some(close_rx.fuse()).into();
+        let real_rx = a.peer_event_rx.take();
+        let (inj_tx, inj_rx) = mpsc::unbounded_channel();
+        a.peer_event_rx = Some(UnboundedReceiverStream::new(inj_rx));
         obs.push(Obsv {
             cfg: n.clone(),
             remote_sa,
             a,
+            stream,
+            client,
+            rxbuf: bytes::BytesMut::with_capacity(PeerSession::RXBUF_SIZE),
+            close_rx,
+            _close_tx: close_tx,
+            real_rx,
+            inj_tx,
             addpath: n.max > 1,
             mirror: Mirror::new(),
             q: VecDeque::new(),
@@ -532,32 +581,116 @@ async fn run(c: &Case) -> String {
         });
     }
 
-    async fn deliver(o: &mut Obsv, n: usize) {
+    /// one call of the real run_select; it must have something to do
+    async fn select_once(global: &GlobalHandle, o: &mut Obsv, local_sa: SocketAddr) {
+        // (no cooperative-scheduling budget: a channel that answers Pending because the task has
+        // polled too much since it last yielded would let the socket arm run in the event's place)
+        let r = tokio::time::timeout(
+            Duration::from_secs(5),
+            tokio::task::unconstrained(o.a.run_select(
+                global,
+                &mut o.stream,
+                &mut o.rxbuf,
+                o.remote_sa,
+                local_sa,
+                &mut o.close_rx,
+            )),
+        )
+        .await;
+        match r {
+            Ok(Step::Continue) => {}
+            Ok(Step::Terminate { .. }) => o.err = Some("session-terminated"),
+            Err(_) => o.err = Some("run-select-idle"),
+        }
+    }
+
+    async fn deliver(global: &GlobalHandle, o: &mut Obsv, n: usize, local_sa: SocketAddr) {
         for _ in 0..n {
             let Some(e) = o.q.pop_front() else { break };
-            match e {
+            let ev = match e {
                 Ev::Change(u) => {
+                    if std::env::var("VERIF_DEBUG").is_ok() {
+                        eprintln!(
+                            "DBG nbr={} change net={:?} id={} best={} any={} repl={:?} paths={:?}",
+                            o.cfg.remote_addr,
+                            nlri_key(&u.net),
+                            u.dest_id,
+                            u.best_changed,
+                            u.any_changed,
+                            u.replaced_path_id,
+                            u.current_paths.iter().map(|p| p.local_path_id).collect::<Vec<_>>()
+                        );
+                    }
                     if let Some(old) = o.owner.insert((u.family, u.dest_id), u.net.clone())
                         && old != u.net
                     {
                         o.reuse += 1;
                     }
-                    o.a.handle_prefix_update(u);
+                    ToPeerEvent::NlriChange(u)
                 }
                 Ev::SoftReset => {
                     // the refresh walks the RIB as it is now: are changes still queued behind it?
                     if o.q.iter().any(|e| matches!(e, Ev::Change(_))) {
                         o.overtaken += 1;
                     }
-                    for family in o.a.pending.keys().cloned().collect::<Vec<_>>() {
-                        o.a.do_route_refresh(family).await;
-                    }
+                    ToPeerEvent::SoftResetOut
                 }
+            };
+            // the session finds the event on its channel; the arm that handles it is the real one
+            let _ = o.inj_tx.send(ev);
+            select_once(global, o, local_sa).await;
+            // the event must have been consumed by that call
+            if o.a.peer_event_rx.as_mut().map(|rx| rx.as_mut().len()).unwrap_or(0) != 0 {
+                o.err = Some("event-not-consumed");
             }
         }
     }
 
+    /// run_select's socket arm (flush_tx) until every PendingTx is empty, then what the neighbour read
+    async fn flush_real(global: &GlobalHandle, o: &mut Obsv, local_sa: SocketAddr) {
+        let mut guard = 0;
+        while o.a.pending.values().any(|p| !p.is_empty()) && guard < 8 {
+            select_once(global, o, local_sa).await;
+            guard += 1;
+        }
+        let mut buf: Vec<u8> = Vec::new();
+        let mut tmp = [0u8; 65536];
+        if guard > 0 {
+            // everything flush_tx wrote is in the socket already; let the reactor see it
+            let _ = tokio::time::timeout(Duration::from_millis(200), o.client.readable()).await;
+        }
+        loop {
+            match o.client.try_read(&mut tmp) {
+                Ok(0) => break,
+                Ok(n) => buf.extend_from_slice(&tmp[..n]),
+                Err(_) => break,
+            }
+        }
+        if std::env::var("VERIF_DEBUG").is_ok() {
+            // one line per frame: which prefixes it withdraws / announces
+            let mut pos = 0usize;
+            while pos + 19 <= buf.len() {
+                let l = u16::from_be_bytes([buf[pos + 16], buf[pos + 17]]) as usize;
+                let mut one = Mirror::new();
+                let before: Vec<Key> = o.mirror.keys().cloned().collect();
+                for k in &before {
+                    one.insert(*k, (Term::atom("x"), Term::atom("x")));
+                }
+                let _ = apply_bytes(&buf[pos..pos + l], o.addpath, &mut one);
+                let gone: Vec<_> = before.iter().filter(|k| !one.contains_key(k)).collect();
+                let set: Vec<_> = one.iter().filter(|(_, v)| v.0.as_atom() != Some("x")).map(|(k, _)| k).collect();
+                eprintln!("DBG nbr={} frame len={} gone={:?} set={:?}", o.cfg.remote_addr, l, gone, set);
+                pos += l;
+            }
+            eprintln!("DBG nbr={} flush end guard={}", o.cfg.remote_addr, guard);
+        }
+        if let Err(e) = apply_bytes(&buf, o.addpath, &mut o.mirror) {
+            o.err = Some(e);
+        }
+    }
+
     /// what a brand-new session to the same neighbour is sent from the current RIB and policies
+    /// (drained and encoded directly, without a socket)
     async fn fresh_dump(
         c: &Case,
         tables: &TableHandle,
@@ -566,8 +699,8 @@ async fn run(c: &Case) -> String {
         carry_on: bool,
     ) -> Mirror {
         // (its registration replaces the observing session's channel, which pump() has emptied: the
-        // observing session carries on with the new channel)
-        pump(&mut o.a, &mut o.q, false);
+        // harness carries on reading the new one)
+        pump(&mut o.real_rx, &mut o.q, false);
         let mut b = new_session(c, &o.cfg, tables);
         b.state.export_policy.store(o.policy.clone());
         b.on_established(local_sa, o.remote_sa).await;
@@ -577,7 +710,7 @@ async fn run(c: &Case) -> String {
             o.err = Some(e);
         }
         if carry_on {
-            o.a.peer_event_rx = b.peer_event_rx.take();
+            o.real_rx = b.peer_event_rx.take();
         }
         dump
     }
@@ -588,13 +721,13 @@ async fn run(c: &Case) -> String {
             Op::Ann(..) | Op::Wd(..) => {
                 rib_op(&op);
                 for o in obs.iter_mut() {
-                    pump(&mut o.a, &mut o.q, false);
+                    pump(&mut o.real_rx, &mut o.q, false);
                 }
             }
             Op::Down(_) | Op::Llgr(_) | Op::Nh(..) => {
                 rib_op(&op);
                 for o in obs.iter_mut() {
-                    pump(&mut o.a, &mut o.q, true);
+                    pump(&mut o.real_rx, &mut o.q, true);
                 }
             }
             Op::Reset(k) => {
@@ -606,7 +739,7 @@ async fn run(c: &Case) -> String {
                 };
                 o.a.state.export_policy.store(o.policy.clone());
                 tables.soft_reset_out(o.cfg.remote_addr);
-                pump(&mut o.a, &mut o.q, false);
+                pump(&mut o.real_rx, &mut o.q, false);
             }
             Op::Greset(k) => {
                 let g = match k {
@@ -616,20 +749,17 @@ async fn run(c: &Case) -> String {
                 tables.export_policy.store(g);
                 for o in obs.iter_mut() {
                     tables.soft_reset_out(o.cfg.remote_addr);
-                    pump(&mut o.a, &mut o.q, false);
+                    pump(&mut o.real_rx, &mut o.q, false);
                 }
             }
             Op::Deliver(n) => {
                 for o in obs.iter_mut() {
-                    deliver(o, *n).await;
+                    deliver(&global, o, *n, local_sa).await;
                 }
             }
             Op::Flush => {
                 for o in obs.iter_mut() {
-                    let bytes = flush(&mut o.a);
-                    if let Err(e) = apply_bytes(&bytes, o.addpath, &mut o.mirror) {
-                        o.err = Some(e);
-                    }
+                    flush_real(&global, o, local_sa).await;
                     if o.q.is_empty() {
                         // nothing left in the channel: what would a brand-new session be sent right now?
                         let dump = fresh_dump(c, &tables, o, local_sa, true).await;
@@ -653,11 +783,8 @@ async fn run(c: &Case) -> String {
     let mut out: Vec<Term> = Vec::new();
     for o in obs.iter_mut() {
         let n = o.q.len();
-        deliver(o, n).await;
-        let bytes = flush(&mut o.a);
-        if let Err(e) = apply_bytes(&bytes, o.addpath, &mut o.mirror) {
-            o.err = Some(e);
-        }
+        deliver(&global, o, n, local_sa).await;
+        flush_real(&global, o, local_sa).await;
     }
     for o in obs.iter_mut() {
         let dump = fresh_dump(c, &tables, o, local_sa, false).await;
@@ -675,6 +802,10 @@ async fn run(c: &Case) -> String {
                 mirror_t("dump", &dump),
             ],
         ));
+    }
+    // everything written was read: the connections can serve the next case
+    for o in obs {
+        CONNS.with(|c| c.borrow_mut().push((o.stream, o.client)));
     }
     if out.len() == 2 {
         Term::tag("pair", out).to_string()
